@@ -192,19 +192,18 @@ def run_jobs(jobs, optable, scratch, per_job_timeout):
     jd = os.path.join(scratch, 'jobs')
     os.makedirs(jd, exist_ok=True)
 
-    def one(ij):
-        i, job = ij
+    def attempt(i, job, fresh):
         prog, target, bounds, want, fp_data = job
         key = x86check.cache_key(prog, [bounds, sorted(want), fp_data])
-        path = os.path.join(CACHE, key + '.json')
+        path = os.path.join(CACHE, key + ('.fresh' if fresh else '') + '.json')
         if os.path.exists(path) and not os.environ.get('VERIF_NOCACHE'):
             try:
                 r = json.load(open(path)); r['cached'] = True
                 return r
             except Exception:
                 pass
-        jf = os.path.join(jd, '%d.json' % i)
-        json.dump(dict(prog=prog, target=target, bounds=bounds, want=list(want), fp_data=fp_data, optable=optf, out=path), open(jf, 'w'))
+        jf = os.path.join(jd, '%d%s.json' % (i, 'f' if fresh else ''))
+        json.dump(dict(prog=prog, target=target, bounds=bounds, want=list(want), fp_data=fp_data, optable=optf, out=path, fresh=fresh), open(jf, 'w'))
         rc, out, err, wall = run_cmd([sys.executable, '-m', 'lib.x86run', jf], timeout=per_job_timeout, cwd=VERIF, mem_gb=8)
         if os.path.exists(path):
             try:
@@ -216,14 +215,40 @@ def run_jobs(jobs, optable, scratch, per_job_timeout):
         return dict(name=prog['name'], target=target, flags=prog['flags'], status='timeout' if rc == -9 else 'crash', paths=0, queries=0, solver_s=0.0,
                     viol={p: [] for p in ('C01', 'C03', 'C10', 'C11')}, inconclusive=[why], notes=[], counterexamples=[], wall=round(wall, 1), cached=False,
                     recipe=prog.get('recipe'))
+
+    def one(ij):
+        i, job = ij
+        r = attempt(i, job, False)
+        if r['status'] in ('timeout', 'exception', 'crash') and not any(r['viol'].values()):
+            # The entry state leaves the executor's scratch fields (counter1..3) arbitrary.  Code that reads them before
+            # writing them makes the exploration unbounded.  Decide the same program for the state orc_executor_new()
+            # leaves (scratch fields zero): a violation found there is a violation of the original claim (a fresh executor is
+            # a legitimate input); if that run holds, the program stays inconclusive.
+            r2 = attempt(i, job, True)
+            if any(r2['viol'].values()):
+                for p_, v_ in r2['viol'].items():
+                    r['viol'][p_] = ['[fresh executor: scratch fields counter1..3 zero] ' + x for x in v_]
+                r['counterexamples'] = r2.get('counterexamples', [])
+                r['paths'] = r2.get('paths', 0)
+                r['notes'] = list(r.get('notes', [])) + ['exploration with arbitrary executor scratch contents did not finish (%s); decided for a fresh executor' % r['status']]
+        return r
     return pool_map(one, list(enumerate(jobs)), NCPU)
+
+
+def _fresh_executor(es, solver):
+    """entry state of an executor straight from orc_executor_new(): the scratch fields the generated code owns are zero"""
+    import z3
+    ex = es.machine.mem.region('ex')
+    for f in ('counter1', 'counter2', 'counter3'):
+        ex.set_bytes(es.layout[f], z3.BitVecVal(0, 32), 4)
 
 
 def _worker_main(jf):
     j = json.load(open(jf))
     _init(json.load(open(j['optable'])))
     r = x86check.check_program(j['prog'], j['target'], _G['optable'], _G['sem'], n_max=j['bounds'].get('n_max'), m_max=j['bounds'].get('m_max', 2),
-                               query_timeout_ms=j['bounds'].get('qt', 20000), want=tuple(j['want']), max_paths=j['bounds'].get('max_paths', 6000), fp_data=j['fp_data'])
+                               query_timeout_ms=j['bounds'].get('qt', 20000), want=tuple(j['want']), max_paths=j['bounds'].get('max_paths', 6000), fp_data=j['fp_data'],
+                               constrain=_fresh_executor if j.get('fresh') else None)
     r['recipe'] = j['prog'].get('recipe')
     r['code_sha'] = hashlib.sha256(j['prog']['orccode']['code'].encode()).hexdigest()[:16]
     os.makedirs(os.path.dirname(j['out']), exist_ok=True)
